@@ -6,7 +6,7 @@ props = [a for a in sys.argv[1:] if len(a) == 3] or [f"C{i:02d}" for i in range(
 variants = [a for a in sys.argv[1:] if len(a) == 1] or list("ABCD")
 for prop in props:
     for var in variants:
-        src = f"/tmp/seedout2-{prop}" if var in "CD" else f"/tmp/seedout-{prop}"
+        src = f"/tmp/seedout2-{prop}" if var in "CD" else f"/tmp/seedout7-{prop}" if var in "MN" else f"/tmp/seedout-{prop}"
         patch = f"{src}/{var}.patch.diff"
         if not os.path.exists(patch): continue
         sid = f"{prop}-{var}"
